@@ -6,6 +6,7 @@ import (
 	"math"
 	"math/rand"
 
+	"github.com/pdok/texel/intgeom"
 	"github.com/pdok/texel/snap"
 )
 
@@ -14,6 +15,7 @@ func init() {
 	register("kmp-check", kmpCheck)
 	register("kmp-run", kmpRun)
 	register("assemble-replay", assembleReplay)
+	register("split-replay", splitReplay)
 }
 
 func runKmp(ring [][2]float64) (out [][2]float64, outcome string) {
@@ -249,6 +251,66 @@ func assembleReplay(args []string) int {
 			v.Is = [][][2]int{}
 		}
 		out.put(map[string]any{"os": v.Os, "is": v.Is, "got": got, "out": oc})
+	})
+	return 0
+}
+
+// splitReplay: TLC's rings and hit-multiple sets (SplitRing.tla) through the real splitRing, as outer and as inner ring.
+// input lines {"ring":[labels],"hm":[labels]}; label n is the n-th corner of the convex pentagon of SplitRing.tla.
+func splitReplay(args []string) int {
+	out := newJSONL("-")
+	defer out.close()
+	corner := [][2]float64{{0, 0}, {4, 0}, {6, 3}, {3, 6}, {0, 4}}
+	lab := func(rs [][][2]float64) [][]int {
+		o := [][]int{}
+		for _, r := range rs {
+			l := []int{}
+			for _, p := range r {
+				k := -1
+				for i, c := range corner {
+					if c == p {
+						k = i
+					}
+				}
+				l = append(l, k)
+			}
+			o = append(o, l)
+		}
+		return o
+	}
+	readJSONLines("-", func(line []byte) {
+		var v struct {
+			Ring []int `json:"ring"`
+			Hm   []int `json:"hm"`
+		}
+		if err := json.Unmarshal(line, &v); err != nil {
+			fatal("bad input: %v", err)
+		}
+		if v.Hm == nil {
+			v.Hm = []int{}
+		}
+		for _, isOuter := range []bool{true, false} {
+			ring := make([][2]float64, len(v.Ring))
+			for i, l := range v.Ring {
+				ring[i] = corner[l]
+			}
+			const ringIdx = 1
+			hm := map[intgeom.Point][]int{}
+			for _, l := range v.Hm {
+				hm[intgeom.FromGeomPoint(corner[l])] = []int{0, ringIdx}
+			}
+			var o, in, p [][][2]float64
+			oc := func() (oc string) {
+				defer func() {
+					if e := recover(); e != nil {
+						oc = "panic: " + panicString(e)
+					}
+				}()
+				o, in, p = snap.VerifSplitRing(ring, isOuter, hm, ringIdx)
+				return "ok"
+			}()
+			out.put(map[string]any{"ring": v.Ring, "hm": v.Hm, "outer": isOuter, "out": oc, "o": lab(o), "i": lab(in), "p": lab(p)})
+		}
 	})
 	return 0
 }
